@@ -13,7 +13,20 @@ fn k<K: IndexType>(v: &Value, f: &str) -> K {
 
 pub fn run_segment<K: IndexType>(ops: &[Value], log: &mut Log) {
     let mut uf: UnionFind<K> = UnionFind::new_empty();
-    for op in ops {
+    for op0 in ops {
+        // "union_reps": unite the current representatives of x and y (found read-only), which
+        // builds maximally deep trees (no path halving on the way). Logged as a plain union.
+        let mut opv = op0.clone();
+        if op0["op"] == "union_reps" {
+            let rx = uf.try_find(k::<K>(op0, "x")).map(|r| r.index());
+            let ry = uf.try_find(k::<K>(op0, "y")).map(|r| r.index());
+            if let (Some(rx), Some(ry)) = (rx, ry) {
+                opv = json!({"op": if op0["try"] == true {"try_union"} else {"union"}, "x": rx, "y": ry});
+            } else {
+                opv = json!({"op":"try_union","x":op0["x"],"y":op0["y"]});
+            }
+        }
+        let op = &opv;
         let name = op["op"].as_str().unwrap();
         let mut ev = op.clone();
         let ret: Value = match name {
@@ -156,7 +169,8 @@ pub fn gen_segment(rng: &mut Rng, ix: &str, n: usize, len: usize, grow: bool) ->
             60..=67 => json!({"op":"try_find_mut","x":x}),
             68..=73 => json!({"op":"equiv","x":x,"y":y}),
             74..=81 => json!({"op":"try_equiv","x":x,"y":y}),
-            82..=85 => json!({"op":"labeling"}),
+            82..=83 => json!({"op":"labeling"}),
+            84..=85 => json!({"op":"union_reps","x":x,"y":y,"try":rng.chance(1,2)}),
             86..=87 => json!({"op":"len"}),
             88 => json!({"op":"is_empty"}),
             89 => json!({"op":"clone"}),
@@ -175,6 +189,43 @@ pub fn gen_segment(rng: &mut Rng, ix: &str, n: usize, len: usize, grow: bool) ->
     s
 }
 
+/// Deep trees: unite class representatives in binomial order under a random renaming, then
+/// observe with labeling / find / find_mut on every element (interleaved differently per segment).
+pub fn gen_deep(rng: &mut Rng, ix: &str, r: u32) -> Vec<Value> {
+    let n = 1usize << r;
+    let mut s = vec![json!({"op":"reset","ix":ix,"n":n,"ctor":*rng.pick(&CTORS)})];
+    let mut name: Vec<usize> = (0..n).collect();
+    rng.shuffle(&mut name);
+    let mut step = 1;
+    while step < n {
+        let mut i = 0;
+        while i + step < n {
+            let (a, b) = if rng.chance(1, 2) { (i, i + step) } else { (i + step, i) };
+            s.push(json!({"op":"union_reps","x":name[a],"y":name[b],"try":rng.chance(1,2)}));
+            i += 2 * step;
+        }
+        step *= 2;
+        if rng.chance(1, 4) {
+            s.push(json!({"op":"labeling"}));
+        }
+    }
+    s.push(json!({"op":"labeling"}));
+    let mut order: Vec<usize> = (0..n).collect();
+    rng.shuffle(&mut order);
+    for (j, &x) in order.iter().enumerate() {
+        let op = ["find", "try_find", "find_mut", "try_find_mut"][rng.below(4)];
+        s.push(json!({"op":op,"x":x}));
+        if j % 7 == 3 {
+            s.push(json!({"op":"equiv","x":x,"y":order[rng.below(n)]}));
+        }
+        if j % 11 == 5 {
+            s.push(json!({"op":"labeling"}));
+        }
+    }
+    s.push(json!({"op":"labeling"}));
+    s
+}
+
 /// Random histories at every index width, including u8 grown to its 256-element capacity.
 pub fn gen_random(seed: u64, segments: usize, len: usize) -> Vec<Value> {
     let mut rng = Rng::new(seed);
@@ -189,6 +240,10 @@ pub fn gen_random(seed: u64, segments: usize, len: usize) -> Vec<Value> {
             _ => 1 + rng.below(16),
         };
         out.extend(gen_segment(&mut rng, ix, n, len, true));
+    }
+    for i in 0..(segments / 4).max(2) {
+        let ix = ["u8", "u16", "u32", "usize"][i % 4];
+        out.extend(gen_deep(&mut rng, ix, 2 + (i % 5) as u32));
     }
     // u8 at its capacity: start at 250, grow to 256, keep operating
     for _ in 0..(segments / 8).max(1) {
